@@ -13,6 +13,10 @@ type WhopLoc struct {
 	// Primary is true when Current is the index of a primary method that is
 	// being called and not of a whopper or :around method.
 	Primary bool
+	// Args are the arguments the method at Current was called with. They
+	// are the arguments of the next method when call-next-method is called
+	// without arguments.
+	Args List
 }
 
 // String representation of the Object.
@@ -60,7 +64,7 @@ func (wl *WhopLoc) Continue(s *Scope, args List, depth int) Object {
 			continue
 		}
 		ws := s.NewScope()
-		ws.Let("~whopper-location~", &WhopLoc{Method: wl.Method, Current: i})
+		ws.Let("~whopper-location~", &WhopLoc{Method: wl.Method, Current: i, Args: args})
 		if lam, ok := wrap.(*Lambda); ok {
 			lam.Closure = ws
 		}
